@@ -92,6 +92,9 @@ func cmdUnits(args []string) {
 			fmt.Printf("== %s: TRUSTED (assumed)\n", r.Unit)
 			continue
 		}
+		if r.Inlined {
+			continue
+		}
 		if r.Err != "" {
 			fmt.Printf("== %s: ENGINE ERROR: %s\n", r.Unit, r.Err)
 			bad++
@@ -106,6 +109,9 @@ func cmdUnits(args []string) {
 			}
 			if *verbose || o.Status != "discharged" {
 				fmt.Printf("   %s %-10s %s  [%s %s %.2fs %dB] %s\n", mark, o.Status, o.Name, o.Res.Solver, o.Res.Status, o.Res.Time, o.QuerySz, o.Pos)
+				if o.Status == "failed" && *verbose {
+					fmt.Printf("      model: %s\n", strings.Join(strings.Fields(modelOf(o.Res.Output)), " "))
+				}
 			}
 		}
 		if *verbose {
@@ -123,7 +129,15 @@ func cmdUnits(args []string) {
 	}
 }
 
-func cmdCheck(args []string) {
-	fmt.Println("not yet")
-	os.Exit(2)
+
+func modelOf(out string) string {
+	i := strings.Index(out, "\n")
+	if i < 0 {
+		return ""
+	}
+	s := out[i+1:]
+	if len(s) > 3000 {
+		s = s[:3000]
+	}
+	return s
 }
